@@ -1,4 +1,4 @@
-(* The full statement of C01-C05 for a fragment of the language: with mergeProps off, an element
+(* The full statement of C01-C05 for a fragment of the language (mergeProps on or off): an element
    whose attributes each satisfy their per-attribute refinement, whose children are source
    expressions / text / nested elements of the same kind, is lowered to an expression that the
    independent reading of Spec/SiteCheck.v accepts entirely: [check_site] returns no complaint. *)
@@ -6,7 +6,7 @@ From Coq Require Import Lia PeanoNat.
 From VJ Require Import Model.Str Model.Json Model.Ast Model.State Model.Util Model.Text
   Model.Directive Model.Lower Spec.JsxText Spec.OutViews Spec.Site Spec.SiteCheck Lemmas.StrLemmas
   Lemmas.NodeInd Lemmas.TextProofs Lemmas.SiteProofs Lemmas.ChildProofs Lemmas.AttrsProofs Lemmas.DirsProofs
-  Lemmas.ContribsProofs Lemmas.BalProofs.
+  Lemmas.ContribsProofs Lemmas.MergeProofs Lemmas.BalProofs.
 
 (* ---- the comparison functions of the oracle are reflexive -------------------------------- *)
 Lemma atype_eqb_refl a : atype_eqb a a = true.
@@ -137,7 +137,6 @@ End Slots.
 (* ---- the element as a whole ------------------------------------------------------------------ *)
 Section Element.
 Variable E : env.
-Hypothesis MP : o_merge_props (e_opts E) = false.
 
 Definition no_elem_value (a : node) : bool :=
   match a with
@@ -157,8 +156,13 @@ Proof.
   match goal with |- context [JAttr ?nm ?v] => destruct v end; try exact Hdef; discriminate Ha.
 Qed.
 
+(* the props part of an attribute: with mergeProps off every kind joins the one object; with it
+   on a spread is an argument of its own and the others must not denote an element or a spread *)
+Definition attr_contrib_ok (ic : bool) (tag : node) (attrs : list node) (x : node) : Prop :=
+  if o_merge_props (e_opts E) then merge_ok E ic tag attrs x else contrib_ok E ic tag attrs x.
+
 Definition attr_good (ic : bool) (tag : node) (attrs : list node) (x : node) : Prop :=
-  contrib_ok E ic tag attrs x /\ dir_ok E ic tag attrs x /\ slots_ok E ic tag attrs x.
+  attr_contrib_ok ic tag attrs x /\ dir_ok E ic tag attrs x /\ slots_ok E ic tag attrs x.
 
 (* the state in which elements are lowered: no assignment target pending *)
 Definition quiet_a (s : st) : Prop := assign_left s = None.
@@ -295,13 +299,18 @@ Proof.
       specialize (CR (r_slots ar) s3 Q3 NS).
       destruct (finish_children E elems ic (r_slots ar) s3) as [ch s4]. cbn [fst] in CR.
       (* the views of the attribute part *)
-      assert (AGc : Forall (contrib_ok E ic name attrs) attrs)
-        by (eapply Forall_impl; [|exact AG]; intros x [H _]; exact H).
       assert (AGd : Forall (dir_ok E ic name attrs) attrs)
         by (eapply Forall_impl; [|exact AG]; intros x [_ [H _]]; exact H).
       assert (AGs : Forall (slots_ok E ic name attrs) attrs)
         by (eapply Forall_impl; [|exact AG]; intros x [_ [_ H]]; exact H).
-      pose proof (contribs_refine_arg E ic name attrs s0 MP SP AGc LONE) as VC. fold ar in VC.
+      assert (VC : view_contribs (r_attrs ar) = fst (fst (spec_attrs E ic name attrs))).
+      { subst ar. destruct (o_merge_props (e_opts E)) eqn:MP.
+        - apply (contribs_refine_arg_merge E ic name attrs MP s0 SP).
+          + eapply Forall_impl; [|exact AG]. intros x [H _]. unfold attr_contrib_ok in H. rewrite MP in H. exact H.
+          + intros e Hin. destruct e; try discriminate.
+            destruct (LONE (Spread Null) Null Hin eq_refl) as [_ [H _]]. exact H.
+        - apply (contribs_refine_arg E ic name attrs s0 MP SP); [|exact LONE].
+          eapply Forall_impl; [|exact AG]. intros x [H _]. unfold attr_contrib_ok in H. rewrite MP in H. exact H. }
       pose proof (directives_refine E ic name attrs s0 SP AGd) as VD. fold ar in VD.
       pose proof (transform_attrs_slots E ic name attrs s0 SP AGs) as VS. fold ar in VS.
       rewrite <- (is_component_spec E name GT). fold ic.
@@ -559,6 +568,50 @@ Qed.
 (* and the theorem applies to it: the whole check is silent *)
 Example fragment_example_checked :
   check_site E0 5 outer (fst (lower_el E0 outer st0)) = [].
-Proof. apply (element_refines E0 MP0 2 outer fragment_is_inhabited 5 st0); [repeat constructor|reflexivity]. Qed.
+Proof. apply (element_refines E0 2 outer fragment_is_inhabited 5 st0); [repeat constructor|reflexivity]. Qed.
 
 End Example.
+
+(* non-vacuity under mergeProps (the default): `<div class="a" id={x} class={y} {...rest} title="t">{z}</div>`
+   - a repeated class grouped by dedupe_props, a spread closing the run, a second run *)
+Section ExampleMerge.
+Let opts : options := {| o_transform_on := false; o_optimize := true; o_merge_props := true;
+                         o_object_slots := true; o_pragma := None; o_resolve_type := false; o_npat := 0 |}.
+Let E1 : env := {| e_opts := opts; e_unres := 1; e_matches := []; e_html := [s_ "div"]; e_svg := []; e_comments := [] |}.
+Let idn (n : String.string) : node := Ident (s_ n) 2 false.
+Let m_attrs : list node :=
+  [JAttr (IdName (s_ "class")) (Str (s_ "a") nnull); JAttr (IdName (s_ "id")) (JExprC (idn "x"%string));
+   JAttr (IdName (s_ "class")) (JExprC (idn "y"%string)); Spread (idn "rest"%string);
+   JAttr (IdName (s_ "title")) (Str (s_ "t") nnull)].
+Let m_el : node := JsxE (idn "div"%string) m_attrs false nnull [JExprC (idn "z"%string)] nnull.
+
+Ltac plain_merge :=
+  split; [|split];
+  [left; split; [reflexivity|]; split; [eapply contrib_ok_plain; try reflexivity; exact I|];
+   split; [intros k n|intros e]; (let H := fresh "HIn" in intro H; vm_compute in H; intuition discriminate)
+  |eapply dir_ok_plain; try reflexivity; exact I
+  |eapply slots_ok_plain; try reflexivity; exact I].
+
+Example fragment_merge_is_inhabited : good E1 1 m_el.
+Proof.
+  unfold m_el. apply good_E; try reflexivity.
+  - unfold m_attrs.
+    apply Forall_cons; [plain_merge|]. apply Forall_cons; [plain_merge|]. apply Forall_cons; [plain_merge|].
+    apply Forall_cons; [|apply Forall_cons; [plain_merge|apply Forall_nil]].
+    split; [|split]; [right; eexists; split; reflexivity|apply dir_ok_spread|apply slots_ok_spread].
+  - intros x e [<-|[<-|[<-|[<-|[<-|[]]]]]] H; vm_compute in H; try discriminate H.
+    injection H as <-. split; [reflexivity|split; [discriminate|exact I]].
+  - intros c [<-|[]] He; discriminate He.
+Qed.
+
+Example fragment_merge_example_checked :
+  check_site E1 5 m_el (fst (lower_el E1 m_el st0)) = []
+  /\ fst (fst (spec_attrs E1 false (idn "div"%string) m_attrs))
+     = [CKV (s_ "class") [mk_str (s_ "a"); idn "y"%string]; CKV (s_ "id") [idn "x"%string]; CBreak;
+        CSpread (idn "rest"%string); CBreak; CKV (s_ "title") [mk_str (s_ "t")]].
+Proof.
+  split; [apply (element_refines E1 1 m_el fragment_merge_is_inhabited 5 st0); [repeat constructor|reflexivity]|].
+  vm_compute. reflexivity.
+Qed.
+
+End ExampleMerge.
